@@ -313,15 +313,18 @@ impl<'a> Run<'a> {
             self.metrics.lock().push(metrics);
         }
 
-        // Remove from running.
-        self.running.write().remove(module.as_ref());
+        // Insert into updated map no matter what. This needs to happen
+        // before removing the module from running: a thread coming in
+        // between the two steps must find the module in either of the two
+        // or else it would update the module a second time.
+        self.updated.write().insert(module.clone().into_owned());
         #[cfg(feature = "verif-hooks")]
         crate::verif::point("rsync.between_running_and_updated", || {
             module.to_string()
         });
 
-        // Insert into updated map no matter what.
-        self.updated.write().insert(module.into_owned());
+        // Remove from running.
+        self.running.write().remove(module.as_ref());
     }
 
     /// Loads the file for the given URI.
